@@ -132,7 +132,10 @@ def _task(srv, item):
     tag = 'T%d' % cid
     if cid % 97 == 5:
         tag += '+%d' % (900, 980, 990, 1000, 1010, 1023, 1100)[cid // 97 % 7]     # a sample of the sections gets long messages
-    h, res = srv.expand(hist, [('M', tag)])
+    h, res = srv.expand(hist, [('M', tag)], hist_may_die=True)
+    if h.get('died'):
+        # every section of the universe is a valid file: the library dying while loading them is not a harness matter
+        return (cid, [('C18.died', 'process %s while loading the sections: %s' % (h['died'], [l for l in (h.get('stderr') or '').splitlines() if 'ERROR' in l or 'SUMMARY' in l][:2]))], [0], 0)
     r = res[0]
     if r.get('status') != 'ok' or 'emit' not in r:
         return (cid, [('C18.died', 'process %s while emitting: %s' % (r.get('status'), (r.get('stderr') or '').strip().splitlines()[-1:]))], h['rcs'], 0)
